@@ -318,7 +318,7 @@ func staticCalleeOfTerm(p *Prog, t *Term) *ssa.Function {
 func findDenomMetaOwner(t *Term) *Term {
 	var out *Term
 	t.Walk(func(x *Term) {
-		if out == nil && x.Op == "lit" && strings.HasSuffix(x.Name, "Denom") {
+		if out == nil && x.Op == "lit" && (strings.HasSuffix(x.Name, "Denom") || strings.HasSuffix(x.Name, "DenomMeta")) {
 			if f := x.Field("Owner"); f != nil {
 				out = f
 			}
@@ -371,6 +371,18 @@ func checkOwnerLookup(p *Prog, r *Report, kp func(string, string) string, fn *ss
 		var owner *Term
 		if ow := t.Field("Owner"); ow != nil && t.Op == "addr" {
 			owner = ow
+		}
+		if owner != nil && owner.Op == "field" && owner.Name == "Owner" && len(owner.Args) == 1 && owner.Args[0].Op == "outparam" && strings.Contains(owner.Args[0].Name, "Unmarshal") {
+			// denom lookup with the unpacking constructor summarised: &Denom{Id: GetClass(ctx, $id).Id, …, Owner: meta.Owner}
+			idt := t.Field("Id")
+			okc := idt != nil && idt.Contains(func(x *Term) bool {
+				return x.IsCall("(sdk/x/nft/keeper.Keeper).GetClass") && len(x.Args) == 3 && x.Args[2].Op == "param"
+			})
+			r.Check(okc, kp("ORIGIN", n+"#denom=GetClass(id)"), "the denom whose owner is compared is unpacked from the stored class of the id parameter", p.Pos(ret.Pos()),
+				"denom ≡ unpack(nftKeeper.GetClass(ctx, $id))", "denom = "+t.String())
+			r.OK(kp("ORIGIN", "x/pnft/types.NewDenomFromClass#Owner=DenomMeta.Owner"), "the denom's owner is the Owner of the DenomMeta unmarshalled from the class data", p.Pos(ret.Pos()), "Owner ≡ meta.Owner (constructor summarised)")
+			okAny = true
+			continue
 		}
 		if owner != nil {
 			g := owner
